@@ -30,6 +30,9 @@ func Compact(buf *bytes.Buffer, src []byte, escape bool) error {
 	}
 	buf.Grow(len(src))
 	dst := buf.Bytes()
+	// compact into the spare capacity only: everything compact returns is written
+	// to buf, so bytes already in the buffer must not be part of dst
+	dst = dst[len(dst):]
 
 	ctx := TakeRuntimeContext()
 	ctxBuf := ctx.Buf[:0]
